@@ -74,3 +74,92 @@ Theorem checkstyle_wellformed_refuted : exists t : text,
   existsb xml_forbidden (xml_escape t) = true.
 Proof. exists [12%N]. reflexivity. Qed.
 Print Assumptions checkstyle_wellformed_refuted.
+
+(* ---- "the report survives printing and re-parsing": ModifiedLines Display / FromStr ---- *)
+(* WF cs (Lemmas.v): every chunk has mc_orig <= U32_MAX, mc_removed <= U32_MAX, number of lines <= USIZE_MAX
+   (all three hold of every value of the Rust type) and no line contains LF.  Nothing is assumed about CR. *)
+
+(* decimal printing (Display for u32/usize) followed by parsing (FromStr) is the identity on values in range *)
+Theorem decimal_roundtrip : forall max n : N, (n <= max)%N -> parse_uint max (dec n) = Some n.
+Proof. exact parse_uint_dec. Qed.
+Print Assumptions decimal_roundtrip.
+
+(* print/parse clause: every well-formed report parses back to itself *)
+Theorem print_parse_roundtrip : forall cs : list mchunk,
+  WF cs -> parse_modified (print_modified cs) = Some cs.
+Proof. exact print_parse_roundtrip_lemma. Qed.
+Print Assumptions print_parse_roundtrip.
+
+(* ... and WF is the weakest such hypothesis: a report that survives is well-formed *)
+Theorem print_parse_roundtrip_wf_necessary : forall cs : list mchunk,
+  parse_modified (print_modified cs) = Some cs -> WF cs.
+Proof. exact print_parse_wf_necessary_lemma. Qed.
+Print Assumptions print_parse_roundtrip_wf_necessary.
+
+(* without "no LF inside a line": the text parses to a different report *)
+Theorem print_parse_roundtrip_lf_refuted : exists cs cs' : list mchunk,
+  Forall (fun c => (mc_orig c <= U32_MAX)%N /\ (mc_removed c <= U32_MAX)%N /\
+                   (N.of_nat (length (mc_lines c)) <= USIZE_MAX)%N) cs /\
+  parse_modified (print_modified cs) = Some cs' /\ cs' <> cs.
+Proof. exact print_parse_lf_refuted_lemma. Qed.
+Print Assumptions print_parse_roundtrip_lf_refuted.
+
+(* without the u32 range (a modelling hypothesis: the Rust fields are u32): the text is rejected *)
+Theorem print_parse_roundtrip_u32_refuted : exists cs : list mchunk,
+  Forall (fun c => Forall nolf (mc_lines c)) cs /\ parse_modified (print_modified cs) = None.
+Proof. exact print_parse_u32_refuted_lemma. Qed.
+Print Assumptions print_parse_roundtrip_u32_refuted.
+
+(* converse: whatever text the parser accepts, the value is well-formed and is a fixed point of print-then-parse *)
+Theorem parse_print_parse : forall (t : text) (cs : list mchunk),
+  parse_modified t = Some cs -> WF cs /\ parse_modified (print_modified cs) = Some cs.
+Proof. exact parse_print_parse_lemma. Qed.
+Print Assumptions parse_print_parse.
+
+(* converse on texts produced by print: if such a text is accepted, the parsed value prints to the same text *)
+Theorem print_of_parse_of_print : forall cs cs' : list mchunk,
+  Forall (fun c => Forall nolf (mc_lines c)) cs ->
+  parse_modified (print_modified cs) = Some cs' -> print_modified cs' = print_modified cs.
+Proof. exact print_of_parse_of_print_lemma. Qed.
+Print Assumptions print_of_parse_of_print.
+
+(* ... but not on arbitrary accepted texts (leading '+', zeros, tabs, extra words, missing final newline) *)
+Theorem parse_then_print_refuted : exists (t : text) (cs : list mchunk),
+  parse_modified t = Some cs /\ print_modified cs <> t.
+Proof. exact parse_then_print_refuted_lemma. Qed.
+Print Assumptions parse_then_print_refuted.
+
+(* the printed text determines the report *)
+Theorem print_injective : forall cs cs' : list mchunk,
+  WF cs -> WF cs' -> print_modified cs = print_modified cs' -> cs = cs'.
+Proof. exact print_injective_lemma. Qed.
+Print Assumptions print_injective.
+
+(* from_str terminates on every text: with fuel = number of lines the loop is never cut short, so the result
+   is Ok or Err(()); no operation of from_str can panic, so there is no third outcome (both parser versions) *)
+Theorem parse_total : forall t : text,
+  parse_modified_res t <> PDiverge /\ parse_modified_pre_res t <> PDiverge.
+Proof. exact parse_total_lemma. Qed.
+Print Assumptions parse_total.
+
+(* the parser before 686d4f4 (str::lines): a reported line ending in CR comes back without it *)
+Theorem print_parse_pre_refuted : exists cs cs' : list mchunk,
+  WF cs /\ parse_modified_pre (print_modified cs) = Some cs' /\ cs' <> cs.
+Proof. exact print_parse_pre_refuted_lemma. Qed.
+Print Assumptions print_parse_pre_refuted.
+
+(* what held of it: the round trip for reports none of whose lines ends in CR *)
+Theorem print_parse_pre_roundtrip_partial : forall cs : list mchunk,
+  WF cs -> Forall (fun c => Forall no_cr_end (mc_lines c)) cs ->
+  parse_modified_pre (print_modified cs) = Some cs.
+Proof. exact print_parse_pre_roundtrip_lemma. Qed.
+Print Assumptions print_parse_pre_roundtrip_partial.
+
+(* end to end: the report make_diff produces for any two texts (fewer than 2^32 - 1 lines, so that the u32 line
+   numbers exist) survives printing and re-parsing, CRs included *)
+Theorem report_print_parse_roundtrip : forall a b : text,
+  (N.of_nat (length (dlines a)) < U32_MAX)%N -> (N.of_nat (length (dlines b)) <= USIZE_MAX)%N ->
+  parse_modified (print_modified (map mchunk_of (impl_modified_lines a b)))
+  = Some (map mchunk_of (impl_modified_lines a b)).
+Proof. exact report_print_parse_lemma. Qed.
+Print Assumptions report_print_parse_roundtrip.
